@@ -743,7 +743,7 @@ theorem newCell_ok (v : Val) (s : St) (c : CellId) (s' : St) (h : Jqawk.newCell 
   obtain ⟨rfl, rfl⟩ := h
   exact ⟨rfl, rfl⟩
 
-theorem Heap.get_alloc_new (h : Heap) (v : Val) : (h.alloc v).2.get h.cells.size = v :=
+theorem Heap.get_alloc_new_readOnly (h : Heap) (v : Val) : (h.alloc v).2.get h.cells.size = v :=
   Heap.get_push_new h v
 
 theorem Heap.get_alloc_old (h : Heap) (v : Val) (c : CellId) (hc : c < h.cells.size) :
@@ -767,7 +767,7 @@ theorem memberRead_callee (pos : Nat) (left : CellId) (key : Bytes) (sp : Option
     rw [e]
     refine ⟨by rw [Heap.size_alloc]; exact Nat.lt_succ_self _, ?_⟩
     intro f b sp' hget
-    rw [Heap.get_alloc_new] at hget
+    rw [Heap.get_alloc_new_readOnly] at hget
     rcases hv f b sp' hget with h1 | ⟨rfl, h2, h3⟩
     · exact .inl h1
     · right
@@ -960,7 +960,7 @@ theorem memberStep_callee {k fr : Bool} (hk : k = true) (pos : Nat) (left right 
       rw [e]
       refine ⟨by rw [Heap.size_alloc]; exact Nat.lt_succ_self _, ?_⟩
       intro f b sp' hget
-      rw [Heap.get_alloc_new] at hget
+      rw [Heap.get_alloc_new_readOnly] at hget
       cases hget
     · exact memberRead_callee pos left key sp s c s' (i hk) hm hres
 
@@ -1200,7 +1200,7 @@ theorem allRO_succ (prog : Program) (k : Bool) (hfn : k = true → prog.FnsRO) (
       · rw [h0]; exact Pres.throwRt (α := CellId) p m s1
       · rw [h0]
         exact QP.trans (Pres.newCell (.str key none) s1) (fun _ _ _ =>
-          memberStep_callee hk _ _ _ _ key none (Heap.get_alloc_new _ _) hmut)
+          memberStep_callee hk _ _ _ _ key none (Heap.get_alloc_new_readOnly _ _) hmut)
     rcases hop with h | h <;> simp only [h] <;> exact goal'
 
   · -- evalUnary
